@@ -7,6 +7,15 @@ SEEDED = "/verif/seeded"
 
 # seeded change -> what happened the first time and what was strengthened
 HISTORY = {
+    "C05-10": "missed by C05 at first (the second number -> name table behind CoapResponse::get_status was only exercised by C19): C05 now enumerates all 256 code bytes through get_method / get_status, directly and from the wire (`all-code-getter-numbers`)",
+    "C02-11": "first seen by the thorough tier only (the changed line exists only with the `udp` feature): the quick tier of C01-C04 now also runs the `std,udp` feature set",
+    "C02-10": "caught by one part only at first: C02/C03 got a `large-datagrams` part (payloads and option sections around 1280, 64000 and 65536 bytes, up to 200 kB)",
+    "C04-11": "memory-only (output unchanged); in the plain build glibc happened to abort, so the quick tier of C04 now also runs its cases in the AddressSanitizer build",
+    "C17-11": "unoptimised builds only (the optimiser turns the recursion into a loop): first caught by the thorough tier's unoptimised 2 MiB-stack configuration only; that configuration now also runs in the quick tier of C03 and C17",
+    "C03-14": "needs the `udp` feature set: caught by the quick tier since it runs that configuration",
+    "C10-13": "missed at first (clients never lowered the size mid-transfer in C10, and never came back for a block after the transfer): downloads now lower the size after block 0 in half of the random cases and every fragmented download is followed by late requests for blocks 1, 3 and 0 at equal or smaller sizes",
+    "C10-14": "missed at first (long downloads let the server pick the size, so the regenerated block had the same size): the long downloads now include clients asking for 16/32/64-byte blocks under roomy budgets",
+    "C14-13": "missed at first (needs coap-lite's `log` feature, where logging arguments are not evaluated): C14 and C15 now run a `std,log` configuration in both tiers",
     "C07-2": "missed at first (requests always came from from_packet): ErrCase now also removes the prepared response / builds the request with CoapRequest::new()",
     "C12-1": "missed at first (token length was constant per transfer): tokens now vary in length from request to request in half of the transfers",
     "C12-3": "same site as C12-1; caught by the varying token lengths",
@@ -34,7 +43,7 @@ HISTORY = {
     "C14-8": "missed at first (at most 6 endpoints): new directed part `many-observers-on-one-resource` (up to 1000 endpoints)",
     "C16-7": "missed at first (`rel` was not among the generated keys): keys now include rel/rev/type/hreflang/media, repeated keys are common",
     "C16-8": "missed at first (values had no control characters): value alphabet now has C0/C1 controls and DEL",
-    "C17-6": "quick tier cannot see it: the recursion only overflows the stack in an unoptimised build (with opt-level 2 the tail call is a loop). The thorough tier got an unoptimised build configuration with 2 MiB thread stacks for C03/C17 and inputs with thousands of repeated units between two attributes; the stack overflow aborts the harness and the driver reports the in-flight case as the VIOLATION",
+    "C17-6": "quick tier cannot see it: the recursion only overflows the stack in an unoptimised build (with opt-level 2 the tail call is a loop). The thorough tier got an unoptimised build configuration with 2 MiB thread stacks for C03/C17 and inputs with thousands of repeated units between two attributes; the stack overflow aborts the harness and the driver reports the in-flight case as the VIOLATION. Since the sixth wave that configuration also runs in the quick tier",
     "C20-7": "missed at first: the key under test is now the two-segment path k, v and the intervening traffic includes its look-alikes ('k/v', trailing / leading empty segment, other case, other endpoint, other method)",
     "C05-8": "missed at first (C05 only exercised the conversions; C06 caught the same change): every named option / content format is now also encoded through the message API and read off the wire with the reference parser",
     "C07-7": "missed at first (one specific option value): new exhaustive part with every one-byte No-Response value on all four message types, plus bare requests",
